@@ -720,6 +720,7 @@ impl Engine {
             let _ = std::fs::remove_dir_all(&arts);
             let _ = std::fs::create_dir_all(&work);
             let _ = std::fs::create_dir_all(&arts);
+            let log = arts.join("libfuzzer.log");
             let seed = (self.seed.wrapping_mul(1000).wrapping_add(j) % 0x7fff_ffff).max(1);
             let child = std::process::Command::new(&bin)
                 .arg(&work)
@@ -737,27 +738,35 @@ impl Engine {
                 .current_dir(&harness)
                 .env("CARGO_NET_OFFLINE", "true")
                 .stdout(std::process::Stdio::null())
-                .stderr(std::process::Stdio::piped())
+                // libFuzzer's log goes to a file: with a pipe the processes that are not being
+                // waited for block as soon as the pipe buffer is full and the campaign runs serially
+                .stderr(match std::fs::File::create(&log) {
+                    Ok(f) => std::process::Stdio::from(f),
+                    Err(_) => std::process::Stdio::null(),
+                })
                 .spawn();
             match child {
-                Ok(c) => children.push((j, arts, c)),
+                Ok(c) => children.push((j, arts, log, c)),
                 Err(e) => self.harness_error(format!("cannot start fuzzer {target}: {e}")),
             }
         }
         let mut executed = 0u64;
-        for (j, arts, child) in children {
-            let out = match child.wait_with_output() {
+        for (j, arts, log, mut child) in children {
+            let status = match child.wait() {
                 Ok(o) => o,
                 Err(e) => {
                     self.harness_error(format!("fuzzer {target}-{j}: {e}"));
                     continue;
                 }
             };
-            let err = String::from_utf8_lossy(&out.stderr);
+            let err_bytes = std::fs::read(&log).unwrap_or_default();
+            let _ = std::fs::remove_file(&log);
+            let _ = std::fs::remove_dir_all(harness.join("fuzz").join("corpus-work").join(format!("{target}-{j}")));
+            let err = String::from_utf8_lossy(&err_bytes);
             if let Some(l) = err.lines().find(|l| l.contains("stat::number_of_executed_units:")) {
                 executed += l.rsplit(':').next().and_then(|v| v.trim().parse::<u64>().ok()).unwrap_or(0);
             }
-            if out.status.success() {
+            if status.success() {
                 continue;
             }
             // artifacts
